@@ -38,6 +38,9 @@ CAT = [
     dict(name='t2', t='amp', nu=1, nl=1, rule='amp', w=2),
     dict(name='t2', t='amp', nu=2, nl=2, rule='amp', w=2),
     dict(name='t1cc', t='amp', nu=2, nl=2, rule='amp', w=1),
+    # tensors of unknown spin structure (only next to a known one)
+    dict(name='x', t='non', nu=2, nl=0, rule='any', w=1),
+    dict(name='y', t='non', nu=3, nl=0, rule='any', w=1),
 ]
 
 
@@ -125,7 +128,8 @@ class SpinModel:
         p = p or tm.PRIMES[0]
         n_o, n_v = 2 * nso, 2 * nsv
         N = n_o + n_v
-        base = tm.Model(n_o, n_v, seed=mseed, p=p, spin=True)
+        base = tm.Model(n_o, n_v, seed=mseed, p=p, spin=True,
+                        sym={'f': 1, 'V': 1})
         self.spin_of = base.spin_of
         self.spatial_of = base.spatial_of
         spin_of, spat = self.spin_of, self.spatial_of
@@ -154,7 +158,8 @@ class SpinModel:
                      for x in range(k, 2 * k))
             return (up == lo).astype(np.int64)
         masks = {k: conserving(k) for k in (1, 2)}
-        spatial_model = tm.Model(nsp, nsp, seed=mseed + 1, p=p)
+        spatial_model = tm.Model(nsp, nsp, seed=mseed + 1, p=p,
+                                 sym={'f': 1, 'Vsp': 1})
 
         def spin_tensor(name, kind='anti'):
             def f(model, ud, ld):
@@ -196,8 +201,25 @@ class SpinModel:
         sym = {'V': 1, 'f': 1, 'v': 1}
         if spatial_V:
             sym['Vsp'] = 1
-        self.model = tm.Model(n_o, n_v, seed=mseed, p=p, spin=True, sym=sym,
-                              explicit=explicit)
+        if restricted:
+            # every other tensor depends on the spatial functions only, too
+            class RestrictedModel(tm.Model):
+                def tensor_block(self_, kind, name, ud, ld):
+                    nm = self_.alias.get(name, name)
+                    if (nm, len(ud), len(ld)) in self_.explicit or \
+                            nm in self_.explicit or nm in self_.zero:
+                        return tm.Model.tensor_block(self_, kind, name, ud, ld)
+                    doms = list(ud) + list(ld)
+                    arr = spatial_model.tensor_block(
+                        kind, nm, [np.arange(nsp)] * len(ud),
+                        [np.arange(nsp)] * len(ld))
+                    return arr[np.ix_(*[spat[d] for d in doms])] if doms \
+                        else arr
+            cls = RestrictedModel
+        else:
+            cls = tm.Model
+        self.model = cls(n_o, n_v, seed=mseed, p=p, spin=True, sym=sym,
+                         explicit=explicit)
         if restricted:
             # orbital energies depend on the spatial function only
             e_sp = np.random.default_rng([mseed, 9]).integers(1, p, size=nsp)
@@ -314,8 +336,11 @@ def check_expr(E, order, tstr, spin_list, mseed, res, label,
     # allowed spin blocks of the expression
     if order:
         try:
+            # documented: only works for closed expressions (all spin blocks
+            # known) - RuntimeError otherwise
             allowed = lib_call(allowed_spin_blocks, E.copy(), tstr,
-                               refusals=('NotImplementedError', 'Inputerror'))
+                               refusals=('NotImplementedError', 'Inputerror',
+                                         'RuntimeError'))
         except Refused:
             return
         res.count('allowed_blocks_checked')
